@@ -504,7 +504,7 @@ def c20(k, ctx):
     cli = k.build_cli()
     ctx.vh("gen", "i2s", timeout=3000, env={"VH_CLI": cli})
     recs, rej = ctx.validate("Trace_C20", timeout=3000)
-    ctx.require_events("Gen", "Construct", "Sys", "Encode", "Ber", "Girth")
+    ctx.require_events("Gen", "Construct", "Sys", "Encode", "Ber", "Girth", "BerIn")
     for r in recs:
         ctx.nontrivial_keys.add(k.key(r["argv"]))
         r.pop("lib", None)
@@ -512,7 +512,7 @@ def c20(k, ctx):
     for r in recs:
         sub = r["argv"][0]
         ctx.extra["runs_by_subcommand"][sub] = ctx.extra["runs_by_subcommand"].get(sub, 0) + 1
-    ctx.extra["nonzero_exits"] = sum(1 for r in recs if r["status"] != 0)
+    ctx.extra["nonzero_exits"] = sum(1 for r in recs if r.get("status", 0) != 0)
     ctx.samples = [k.sample_case(recs, 4), k.sample_case(recs, recs[-1]["i"])]
     ctx.assumptions = ["TLC 1.8 + Json/IOUtils", "stdout is compared through the canonical alist of the matrix it parses to (SHA-256 by the harness); library-side digests are computed in-process from Code::h()",
                        "references for encode come from the public Encoder / Puncturer (C02, C15)", "8PSK is selected with the clap value PSK8"]
